@@ -106,6 +106,18 @@ func runC11(r *rt.Runner) {
 					c.Violation(fp+"|counter-at-return", fmt.Sprintf("budget %d: counter is %d at return, expected exactly %d\nprogram: %s", n, intp.NumOps, n+1, text), "")
 					return
 				}
+				if n%7 == 1 {
+					// a later call on the exhausted interpreter: still the budget error, still N+1
+					postscript.VerifStepHook = tr.hook
+					err2 := intp.ExecuteString("1 2 add")
+					postscript.VerifStepHook = nil
+					c.Count("later calls after the budget was used up")
+					// (when another limit is exceeded as well - a full operand stack - its error may come first)
+					if err2 == nil || intp.NumOps != n+1 {
+						c.Violation(fp+"|later-call", fmt.Sprintf("budget %d used up; a later Execute call returned %v and left the counter at %d (expected an error and %d)\nprogram: %s", n, err2, intp.NumOps, n+1, text), "")
+						return
+					}
+				}
 			} else {
 				c.Count("budget sufficient")
 				if (err == nil) != (err0 == nil) || (err != nil && err.Error() != err0.Error()) {
